@@ -961,3 +961,33 @@ Lemma multicol_add (g g0 : grid R) :
     length data' = length (gr_data g) /\
     forall j, (j < length (gr_data g))%nat -> nth j data' 0%R = (nth j (gr_data g0) 0 + nth j (gr_data g) 0)%R.
 Proof. apply (multicol_read_written true). Qed.
+
+(* ------------------------------------------------------------------ the re-gridding loop of read_multicol, mult = 1, add = false,
+   is the record-by-record re-mapping of GridModel.v (to which C15_remap_periodic_target and C15_remap_lossless apply) *)
+Section Regrid.
+  Context {T : Type} (O : NumOps T).
+
+  Definition geom_of (g : grid T) : grid_geom (T := T) := mkGeom (gr_lower g) (gr_width g) (gr_nx g) (gr_per g).
+  Definition record_toks (rc : list T * T) : list (tok T) := map TNum (fst rc) ++ [TNum (snd rc)].
+
+  Lemma remap_rows_is_fold (g : grid T) : gr_mult g = 1%Z -> (0 < gnd g)%nat ->
+    forall recs data fuel,
+    Forall (fun rc => length (fst rc) = gnd g) recs -> (length recs < fuel)%nat ->
+    remap_rows O fuel false g (flat_map record_toks recs) data
+    = Some (fold_left (remap_record O (geom_of g)) recs data, []).
+  Proof.
+    intros Hm Hnd recs; induction recs as [|rc recs IH]; intros data fuel Hf Hfuel.
+    - destruct fuel as [|f]; [lia|]. cbn [flat_map remap_rows fold_left].
+      destruct (gnd g) as [|n]; [lia|]. reflexivity.
+    - destruct fuel as [|f]; [cbn in Hfuel; lia|].
+      inversion Hf as [|? ? Hrc Hrest]; subst.
+      cbn [flat_map remap_rows fold_left]. unfold record_toks at 1. rewrite <- app_assoc.
+      rewrite <- Hrc, take_nums_app. cbn [app].
+      unfold gmult. rewrite Hm.
+      change (Z.to_nat 1) with 1%nat. cbn [take_nums tok_num].
+      rewrite IH by (auto; cbn in Hfuel; lia).
+      f_equal. f_equal. f_equal.
+      unfold remap_record, remap_target, geom_of, gaddr. cbn [g_lower g_width g_nx g_per]. rewrite Hm.
+      destruct (index_ok (gr_nx g) (wrap_index (gr_per g) (gr_nx g) (bins O (gr_lower g) (gr_width g) (fst rc)))); reflexivity.
+  Qed.
+End Regrid.
